@@ -23,6 +23,7 @@ type LabOpts struct {
 	Fuzz      bool // include fuzz seed-corpus nodes
 	Outcomes  bool // provoke failed/updated outcomes (C20)
 	Parallel  bool
+	TornTail  bool // some addressed files end in an unterminated (half written) stale entry
 }
 
 type Lab struct {
@@ -215,6 +216,31 @@ func (l *Lab) Gen(r *rand.Rand, o LabOpts) *LabCase {
 			}
 		}
 	}
+	if o.Skips && r.IntN(3) == 0 {
+		// a skipped test with descendants next to a skipped sibling whose name extends it by a
+		// character that sorts below "/" (b and b-2, b.1, b#01): name-ordered lookups must still
+		// find the ancestor
+		var cands []string
+		for _, n := range names {
+			if strings.Contains(n, "/") && len(lc.Scenario.Nodes[n].Subs) > 0 {
+				cands = append(cands, n)
+			}
+		}
+		if len(cands) > 0 {
+			p := cands[r.IntN(len(cands))]
+			parent := p[:strings.LastIndex(p, "/")]
+			leaf := p[strings.LastIndex(p, "/")+1:]
+			sib := leaf + []string{"-2", ".1", "#x", "+"}[r.IntN(4)]
+			if lc.Scenario.Nodes[parent+"/"+sib] == nil {
+				lc.Scenario.Nodes[parent].Subs = append(lc.Scenario.Nodes[parent].Subs, sib)
+				lc.Scenario.Nodes[parent+"/"+sib] = &Node{Calls: []Call{{API: "snap", Val: "sibling of a skipped test"}}}
+				lc.SkipNodes[p] = "Skip"
+				lc.SkipNodes[parent+"/"+sib] = "SkipNow"
+				delete(lc.SkipAt, p)
+				lc.Classes["skipped-ancestor-with-lower-sorting-skipped-sibling"] = true
+			}
+		}
+	}
 	if o.RunFilter && r.IntN(2) == 0 {
 		lc.Run = l.runPattern(r, names)
 		lc.Classes["run-filter"] = true
@@ -330,11 +356,48 @@ type Seeded struct {
 	StaleFiles   map[string]bool
 	Decoys       map[string]bool // paths that must never be touched
 	InScopeOdd   map[string]bool // names that contain .snap in the middle: in scope, must be reported
+	LiveElsewhere int            // stale entries whose id is live in another file
+	Torn          map[string]bool // files that were given an unterminated tail entry
+}
+
+// AllowedListings counts, per id, in how many addressed files the id is present
+// before Clean without having been addressed there: that many mentions of the id
+// in the obsolete list are (possibly) about those entries and not about an
+// addressed or protected entry with the same id in another file.
+func (l *Lab) AllowedListings(res *RunResult, a *Analysis) map[string]int {
+	addr := map[[2]string]bool{}
+	files := map[string]bool{}
+	for _, cr := range a.Calls {
+		if !cr.Call.Standalone() {
+			addr[[2]string{cr.Path, vkit.SlotID(cr.Test, cr.K)}] = true
+			files[cr.Path] = true
+		}
+	}
+	out := map[string]int{}
+	for f := range files {
+		pre, _ := l.preEntries(res, f)
+		for _, e := range pre {
+			if !addr[[2]string{f, e.ID}] {
+				out[e.ID]++
+			}
+		}
+	}
+	return out
+}
+
+func countOf(xs []string, x string) int {
+	n := 0
+	for _, y := range xs {
+		if y == x {
+			n++
+		}
+	}
+	return n
 }
 
 // Seed plants stale items and decoys, and optionally permutes entry order.
 func (l *Lab) Seed(r *rand.Rand, own *Owned, o LabOpts) *Seeded {
-	sd := &Seeded{StaleEntries: map[[2]string]bool{}, StaleFiles: map[string]bool{}, Decoys: map[string]bool{}, InScopeOdd: map[string]bool{}}
+	sd := &Seeded{StaleEntries: map[[2]string]bool{}, StaleFiles: map[string]bool{}, Decoys: map[string]bool{}, InScopeOdd: map[string]bool{}, Torn: map[string]bool{}}
 	files := make([]string, 0, len(own.FileOwn))
 	for f := range own.FileOwn {
 		files = append(files, f)
@@ -356,7 +419,7 @@ func (l *Lab) Seed(r *rand.Rand, own *Owned, o LabOpts) *Seeded {
 			k := 1 + r.IntN(3)
 			for i := 0; i < k; i++ {
 				var id string
-				switch r.IntN(4) {
+				switch r.IntN(6) {
 				case 0:
 					id = fmt.Sprintf("TestZStale - %d", 1+r.IntN(3))
 				case 1:
@@ -370,8 +433,23 @@ func (l *Lab) Seed(r *rand.Rand, own *Owned, o LabOpts) *Seeded {
 					sort.Strings(ts)
 					t := ts[r.IntN(len(ts))]
 					id = vkit.SlotID(t, own.MaxCalls[t]+1+r.IntN(2))
-				default:
+				case 3:
 					id = fmt.Sprintf("TestAZ - %d", 1+r.IntN(2)) // sibling-prefix name of TestA that is not in the program
+				default:
+					// an id that is LIVE in another file: the test takes more snapshots there than in this file
+					// (one test writing to two files and dropping its N-th snapshot in only one of them)
+					id = fmt.Sprintf("TestZStale - %d", 4+r.IntN(3))
+					var cands []string
+					for k, t := range own.Entry {
+						if k[0] != f && own.FileOwn[f][t] && own.Entry[[2]string{f, k[1]}] == "" {
+							cands = append(cands, k[1])
+						}
+					}
+					if len(cands) > 0 {
+						sort.Strings(cands)
+						id = cands[r.IntN(len(cands))]
+						sd.LiveElsewhere++
+					}
 				}
 				if sd.StaleEntries[[2]string{f, id}] || own.Entry[[2]string{f, id}] != "" {
 					continue
@@ -388,7 +466,13 @@ func (l *Lab) Seed(r *rand.Rand, own *Owned, o LabOpts) *Seeded {
 		if o.Shuffle && r.IntN(2) == 0 {
 			r.Shuffle(len(ents), func(i, j int) { ents[i], ents[j] = ents[j], ents[i] })
 		}
-		os.WriteFile(f, []byte(vkit.RenderSnapFile(ents)), 0o644)
+		content := vkit.RenderSnapFile(ents)
+		if o.TornTail && r.IntN(3) == 0 {
+			// a previous run died while appending: header and part of a body, no terminator
+			content += "\n[TestZTorn - 1]\nhalf written\nbody\n"
+			sd.Torn[f] = true
+		}
+		os.WriteFile(f, []byte(content), 0o644)
 	}
 	if o.Stale {
 		ds := make([]string, 0, len(dirs))
